@@ -675,7 +675,7 @@ func (x *fnExec) atStore(fr *frame, st *State, s *ssa.Store, p Val, v Val) {
 		return
 	}
 	for _, ac := range fr.C.AtStores {
-		if p.Prefix != "F:"+ac.Callee {
+		if strings.HasPrefix(ac.Callee, "map:") || p.Prefix != "F:"+ac.Callee {
 			continue
 		}
 		if ac.Ordinal > 0 && x.siteOrdinal(fr.fn, "store", ac.Callee, s.Pos()) != ac.Ordinal {
@@ -920,4 +920,58 @@ func (x *fnExec) siteOrdinal(fn *ssa.Function, kind, key string, pos tokenPos) i
 		}
 	}
 	return -1
+}
+
+// atMapUpdate emits "at mapupdate <local map variable> assert" obligations (pseudo-variables key and stored).
+func (x *fnExec) atMapUpdate(fr *frame, st *State, mu *ssa.MapUpdate) {
+	if fr.C == nil || fr.inline || len(fr.C.AtStores) == 0 {
+		return
+	}
+	names := debugNames(fr.fn)[mu.Map]
+	for _, ac := range fr.C.AtStores {
+		if !strings.HasPrefix(ac.Callee, "map:") {
+			continue
+		}
+		want := strings.TrimPrefix(ac.Callee, "map:")
+		match := false
+		for _, n := range names {
+			if n == want {
+				match = true
+			}
+		}
+		if !match {
+			continue
+		}
+		x.atCallHits[ac]++
+		cl := *ac.Clause
+		clp := &cl
+		clp.Bound = append([]BoundVar(nil), ac.Clause.Bound...)
+		pos := mu.Pos()
+		if !pos.IsValid() {
+			x.errors = append(x.errors, fmt.Sprintf("at mapupdate %s in %s: no position", want, fr.C.Key))
+			continue
+		}
+		extra := []string{"key " + types.TypeString(mu.Key.Type(), x.P.qualifier), "stored " + types.TypeString(mu.Value.Type(), x.P.qualifier)}
+		x.P.bindClauseAt(fr.C, clp, pos, extra)
+		if clp.Info == nil {
+			x.errors = append(x.errors, fmt.Sprintf("at mapupdate %s in %s: %v", want, fr.C.Key, clp.Err))
+			continue
+		}
+		vars := copyVars(fr.vars)
+		for _, pv := range clp.litParams() {
+			if pv == nil {
+				continue
+			}
+			switch pv.Name() {
+			case "key":
+				vars[pv] = x.val(fr, mu.Key)
+			case "stored":
+				vars[pv] = x.val(fr, mu.Value)
+			}
+		}
+		env := &specEnv{x: x, vars: vars, cur: st, old: fr.entry, info: clp.Info, fr: fr, at: mu}
+		goal, hyp, sk := env.clauseGoal(clp)
+		o := x.obligation(st, fr.C.Key+":at mapupdate "+want+":assert#"+clp.Label, "assert", "map update at "+x.P.Fset.Position(pos).String(), clauseTags(fr.C, clp), goal, hyp, clp.Src)
+		o.skolems = sk
+	}
 }
